@@ -9,6 +9,7 @@
   then about the code's own configuration.
 -/
 import PsutilModel.Proofs.C12Front
+import PsutilModel.Proofs.C12Shapes
 import PsutilModel.Proofs.C12AsFound
 import PsutilModel.Model.C12Gen
 namespace Psutil.C12
@@ -16,6 +17,33 @@ open Spec
 
 /-- the configuration extracted from the source is the documented one -/
 theorem cfg_good : cfg = good := by decide
+
+/-- **cfg_except_clauses.** The `except` clauses of the front end, read as Python reads them (first clause
+    naming a class of the exception, subclasses included): `name()` keeps the kernel's name exactly when
+    `cmdline()` raises ZombieProcess or AccessDenied; `exe()` tries the guess exactly on a native
+    AccessDenied, swallows exactly an AccessDenied of the guess, and `guess_it` re-raises exactly an
+    AccessDenied fallback. (Part of `cfg_good`, stated separately so that a reordered or widened clause
+    points here.) -/
+theorem cfg_except_clauses :
+    handledWith Gen.C12.nameCmdlineClauses "pass" = [.zombieProcess, .accessDenied]
+    ∧ handledWith Gen.C12.exeNativeClauses "guess" = [.accessDenied]
+    ∧ handledWith Gen.C12.exeGuessClauses "pass" = [.accessDenied]
+    ∧ allExc.filter (catches Gen.C12.guessReraiseClass) = [.accessDenied] := by decide
+
+/-- **C12_except_clause_order_matters.** Why the clauses are facts and not only their union: with
+    `except NoSuchProcess: raise` placed BEFORE `except (AccessDenied, ZombieProcess): pass` (ZombieProcess is
+    a NoSuchProcess) a zombie with a 15-byte name loses its name — the obligation above fails for that clause
+    list, and so does the property, on a concrete world. -/
+theorem C12_except_clause_order_matters :
+    let reordered : Clauses := [(["NoSuchProcess"], "raise"), (["AccessDenied", "ZombieProcess"], "pass")]
+    let w : World :=
+      { dirExists := true, zombie := true, comm := [102,105,102,116,101,101,110,45,98,121,116,101,115,45,122],
+        cmdline := .data [], environ := .data [], exe := .err .enoent, cwd := .err .enoent,
+        fs := fun _ => .absent }
+    handledWith reordered "pass" = [.accessDenied]
+    ∧ name { good with nameSwallows := handledWith reordered "pass" } w = .error .zombieProcess
+    ∧ Spec.name w = some (.ok w.comm)
+    ∧ name good w = .ok w.comm := by decide
 
 /-! ## cmdline() -/
 
@@ -79,6 +107,46 @@ theorem C12_cmdline_title_rule (w : World) (t : Bytes) (hd : w.dirExists = true)
     rw [C12_cmdline_spec w _ hd hc]
     simp [Spec.cmdlineOf, args, hnul, h32]
 
+/-! ### files left behind by a rewritten title (setproctitle) and files cut by the kernel -/
+
+/-- **C12_cmdline_title_leftover.** A process that wrote a title `t` over the start of its argument area
+    leaves `t NUL leftover… NUL`: the leftover bytes are returned as further arguments (`fields 0 r`), and
+    the title is NOT split on spaces, whatever it contains — the space rule is for a single piece only. -/
+theorem C12_cmdline_title_leftover (w : World) (t r : Bytes) (hd : w.dirExists = true) (ht : 0 ∉ t)
+    (hc : w.cmdline = .data (t ++ 0 :: (r ++ [0]))) : cmdline cfg w = .ok (t :: fields 0 r) := by
+  rw [C12_cmdline_spec w _ hd hc]
+  simp [Spec.cmdlineOf, args_title_leftover t r ht]
+
+/-- **C12_cmdline_padded_title.** nginx / sshd / postgres pad the rest of the area with NULs: a title
+    followed by `k + 2` NULs comes back as the title (unsplit) followed by `k + 1` EMPTY strings; followed by
+    exactly one NUL it is one argument, split on spaces if it contains one. -/
+theorem C12_cmdline_padded_title (w : World) (t : Bytes) (hd : w.dirExists = true) (ht : 0 ∉ t) :
+    (∀ k, w.cmdline = .data (t ++ List.replicate (k + 2) 0) →
+        cmdline cfg w = .ok (t :: List.replicate (k + 1) []))
+    ∧ (w.cmdline = .data (t ++ [0]) →
+        cmdline cfg w = .ok (if 32 ∈ t then fields 32 t else [t])) := by
+  constructor
+  · intro k hc
+    have e : t ++ List.replicate (k + 2) 0 = t ++ 0 :: (List.replicate k 0 ++ [0]) := by
+      rw [← List.replicate_succ', List.replicate_succ]
+    rw [e] at hc
+    rw [C12_cmdline_title_leftover w t _ hd ht hc, fields0_replicate]
+  · intro hc
+    rw [C12_cmdline_spec w _ hd hc]
+    by_cases h32 : 32 ∈ t <;> simp [Spec.cmdlineOf, args, ht, h32]
+
+/-- **C12_cmdline_unterminated.** A file whose last byte is not NUL — a title written without one, or an
+    argument vector cut by a kernel that serves at most one page — is read as a space-separated title: the
+    NULs it contains stay INSIDE the returned strings (joining the result with spaces gives the file back,
+    one trailing space apart), so arguments separated by NUL come back glued together. -/
+theorem C12_cmdline_unterminated (w : World) (d : Bytes) (hd : w.dirExists = true) (hne : d ≠ [])
+    (h0 : d.getLast? ≠ some 0) (hc : w.cmdline = .data d) :
+    let body := if d.getLast? = some 32 then d.dropLast else d
+    cmdline cfg w = .ok (fields 32 body) ∧ joinWith [32] (fields 32 body) = body := by
+  refine ⟨?_, (fields_isFields 32 _).2.2⟩
+  rw [C12_cmdline_spec w d hd hc]
+  simp [Spec.cmdlineOf, hne, args_unterminated d h0]
+
 /-- the documented fields are characterised uniquely: a non-empty list of pieces without the
     separator whose join is the string (so `fields` in the statements above means what it says) -/
 theorem C12_fields_characterised (sep : Nat) (s : Bytes) (fs : List Bytes) :
@@ -124,6 +192,49 @@ theorem C12_environ_roundtrip (w : World) (env : List (Bytes × Bytes)) (garbage
     rw [environOf, key (0 :: garbage) (Or.inr ⟨garbage, rfl⟩),
       foldl_put_nodup env [] (by simpa using hnd)]
     rfl
+
+/-- **C12_environ_unterminated_tail.** A block cut in the middle of an entry (old kernels serve at most
+    4096 bytes) loses exactly that entry: whatever follows the last NUL — a half name, `NAME=half a value` —
+    is dropped, everything before it is returned as if the block ended there. -/
+theorem C12_environ_unterminated_tail (w : World) (d tail : Bytes) (hd : w.dirExists = true)
+    (hterm : d = [] ∨ d.getLast? = some 0) (ht : 0 ∉ tail) (he : w.environ = .data (d ++ tail)) :
+    environ cfg w = .ok (environOf d) := by
+  rw [C12_environ_spec w _ hd he, environOf_append_tail d tail hterm ht]
+
+/-- **C12_environ_not_assignment_ignored.** An entry without `=` (`B`) or with an empty NAME (`=x`, `=C=2`,
+    `=`), anywhere after complete entries, changes nothing: the result is that of the block without it. -/
+theorem C12_environ_not_assignment_ignored (w : World) (pre e rest : Bytes) (hd : w.dirExists = true)
+    (hpre : pre = [] ∨ pre.getLast? = some 0) (he0 : 0 ∉ e) (hne : e ≠ [])
+    (hna : 61 ∉ e ∨ e.head? = some 61) (he : w.environ = .data (pre ++ (e ++ 0 :: rest))) :
+    environ cfg w = .ok (environOf (pre ++ rest)) := by
+  rw [C12_environ_spec w _ hd he]
+  have hp : parseEntry e = none :=
+    (parseEntry_none_iff e).2 (hna.elim Or.inl fun h => Or.inr (Or.inl h))
+  unfold environOf
+  rw [assignments_skip_entry pre.length pre e rest (Nat.le_refl _) hpre he0 hne hp]
+
+/-- **C12_environ_any_value.** A value may contain anything but NUL — newlines, `=`, spaces, bytes that are
+    not UTF-8 — and so may a NAME, apart from `=`: `NAME=value NUL` comes back as exactly that pair. -/
+theorem C12_environ_any_value (w : World) (k v : Bytes) (hd : w.dirExists = true) (hk : k ≠ [])
+    (hk61 : 61 ∉ k) (hk0 : 0 ∉ k) (hv0 : 0 ∉ v) (he : w.environ = .data (k ++ 61 :: v ++ [0])) :
+    environ cfg w = .ok [(k, v)] := by
+  apply C12_environ_roundtrip w [(k, v)] [] hd
+  · intro kv hkv
+    simp only [List.mem_singleton] at hkv
+    subst hkv
+    exact ⟨hk, hk61, hk0, hv0⟩
+  · simp
+  · left
+    simpa [renderEnv] using he
+
+/-- **C12_environ_duplicates.** With duplicate names allowed: the value returned for a name is that of its
+    LAST assignment in the kernel's layout, and a name that is assigned is returned. -/
+theorem C12_environ_duplicates (w : World) (env : List (Bytes × Bytes)) (hd : w.dirExists = true)
+    (hok : EnvOk env) (he : w.environ = .data (renderEnv env)) :
+    ∃ d, environ cfg w = .ok d ∧ (∀ k, d.lookup k = lastValue env k) ∧ (d.map (·.1)).Nodup := by
+  refine ⟨environOf (renderEnv env), C12_environ_spec w _ hd he, ?_, (C12_environ_last_wins _ []).2⟩
+  intro k
+  rw [(C12_environ_last_wins (renderEnv env) k).1, assignments_renderEnv env hok]
 
 /-! ## exe() / cwd() links -/
 
@@ -214,6 +325,7 @@ theorem C12_exe_native (w : World) (p : Bytes) (hp : p ≠ []) (h : procExe cfg 
     remembered. -/
 theorem C12_exe_native_error (w : World) (e : Exc) (he : e ≠ .accessDenied)
     (h : procExe cfg w = .error e) : exe cfg w ⟨none⟩ = (⟨none⟩, .error e) := by
+  rw [cfg_good] at h ⊢
   cases e <;> simp_all [exe]
 
 /-- **branch 3: AccessDenied → guess.** If `cmdline()[0]` is an absolute path to an executable
@@ -226,6 +338,7 @@ theorem C12_exe_denied (w : World) (h : procExe cfg w = .error .accessDenied) :
         exe cfg w ⟨none⟩ = (⟨none⟩, .error .accessDenied))
     ∧ (cmdline cfg w = .ok [] → exe cfg w ⟨none⟩ = (⟨none⟩, .error .accessDenied))
     ∧ (∀ e, cmdline cfg w = .error e → exe cfg w ⟨none⟩ = (⟨none⟩, .error e)) := by
+  rw [cfg_good] at h ⊢
   refine ⟨?_, ?_, ?_, ?_⟩
   · intro a0 rest hc hg
     have := (guess_cond w.fs a0).2 hg
@@ -250,6 +363,7 @@ theorem C12_exe_withheld (w : World) (h : procExe cfg w = .ok []) :
     ∧ (cmdline cfg w = .error .accessDenied → exe cfg w ⟨none⟩ = (⟨some []⟩, .ok []))
     ∧ (∀ e, e ≠ .accessDenied → cmdline cfg w = .error e →
         exe cfg w ⟨none⟩ = (⟨none⟩, .error e)) := by
+  rw [cfg_good] at h ⊢
   refine ⟨?_, ?_, ?_, ?_, ?_⟩
   · intro a0 rest hc hg
     have := (guess_cond w.fs a0).2 hg
@@ -527,6 +641,25 @@ def wArgv : World := { wEx with cmdline := .data (renderArgv [[97], [], [98, 32,
 
 /-- `a`, ``, `b c`, `` comes back with its empty arguments -/
 example : cmdline cfg wArgv = .ok [[97], [], [98, 32, 99], []] := by decide
+
+/-- nginx worker, sshd session, postgres backend: title, NUL padding -/
+def wSshd : World :=
+  { wEx with cmdline := .data ([115,115,104,100,58,32,117,64,112,116,115,47,48,0,0,0,0]) }
+
+/-- `sshd: u@pts/0` + 4 NULs → the title unsplit and three empty strings -/
+example : cmdline cfg wSshd = .ok [[115,115,104,100,58,32,117,64,112,116,115,47,48], [], [], []] := by decide
+
+/-- `strcpy(argv[0], "w k")` over `/bin/py NUL s.py NUL`: title, then what is left of the old argv -/
+example : cmdline cfg { wEx with cmdline := .data [119,32,107,0,110,47,112,121,0,115,46,112,121,0] }
+    = .ok [[119,32,107], [110,47,112,121], [115,46,112,121]] := by decide
+
+/-- `a NUL bc NUL` cut after three bytes (one-page kernels): ONE string with the NUL inside -/
+example : cmdline cfg { wEx with cmdline := .data ((renderArgv [[97], [98, 99]]).take 3) }
+    = .ok [[97, 0, 98]] := by decide
+
+/-- `A=1 NUL B=x LF y NUL C=cut`: the newline stays in the value, the unterminated entry is dropped -/
+example : environ cfg { wEx with environ := .data [65,61,49,0,66,61,120,10,121,0,67,61,99,117,116] }
+    = .ok [([65], [49]), ([66], [120, 10, 121])] := by decide
 
 def wEnv : World :=
   { wEx with
